@@ -495,6 +495,10 @@ def b_list(ex, path, ca, node):
     v = ca.pos[0]
     if isinstance(v, Py) and v.obj[0] == "genexp":
         return ex.comprehension(v.obj[1], path, "list", env=v.obj[2])
+    if isinstance(v, O):
+        fn = getattr(class_model(v.cls), "list_fn", None)  # an abstract collection defines list(x) itself
+        if fn is not None:
+            return fn(ex, path, v, node)
     sv = ex.seq_view(path, v, node)
     if sv[0] == "unroll":
         return [(path, ex.new_list(path, sv[1]))]
